@@ -23,6 +23,8 @@ import (
 
 const c07NS1 = "ns1/"
 
+const c07ParentRole = "c07-parent-alias"
+
 var c07Content = []string{"a", "b", "c", "dev-app", "dev-db", "ops-x"}
 
 type c07Ent struct {
@@ -37,6 +39,7 @@ type c07World struct {
 	mountMax map[string]time.Duration // token mount max TTL per namespace
 	ents     map[string]*c07Ent
 	loginMax map[string]time.Duration // "<ns>|<mount>" -> max
+	tokenAcc map[string]string        // namespace -> accessor of its token mount
 	n        int
 
 	lastLookupErr string
@@ -60,7 +63,7 @@ func c07TuneMax(t *testing.T, v *vCore, ns, mount string) time.Duration {
 
 func c07Boot(t *testing.T) *c07World {
 	v := vBoot(t, vOpts{})
-	w := &c07World{t: t, v: v, mountMax: map[string]time.Duration{}, ents: map[string]*c07Ent{}, loginMax: map[string]time.Duration{}}
+	w := &c07World{t: t, v: v, mountMax: map[string]time.Duration{}, ents: map[string]*c07Ent{}, loginMax: map[string]time.Duration{}, tokenAcc: map[string]string{}}
 	v.MustDo(vReq{Op: logical.UpdateOperation, Path: "sys/namespaces/ns1", Token: v.Root})
 	for _, ns := range []string{"", c07NS1} {
 		for _, p := range c07Content {
@@ -73,6 +76,16 @@ func c07Boot(t *testing.T) *c07World {
 			v.Policy(name, c07HCL(rules), ns)
 		}
 		v.EnableAuth("vr", "verifrec", ns)
+		// the role through which entity-bound parents of kind "ent"/role-alias are made (by the root token)
+		v.MustDo(vReq{Op: logical.UpdateOperation, Path: "auth/token/roles/" + c07ParentRole, Token: v.Root, NS: ns, Data: map[string]any{"allowed_entity_aliases": []string{"c07e-*"}, "renewable": true}})
+		if resp := v.MustDo(vReq{Op: logical.ReadOperation, Path: "sys/auth", Token: v.Root, NS: ns}); resp != nil {
+			if m, ok := resp.Data["token/"].(map[string]any); ok {
+				w.tokenAcc[ns], _ = m["accessor"].(string)
+			}
+		}
+		if w.tokenAcc[ns] == "" {
+			t.Fatalf("c07: cannot read the accessor of the token mount of %q", ns)
+		}
 	}
 	// token mount of the root namespace: 1h default, 24h max; ns1 keeps whatever it has (read back)
 	v.MustDo(vReq{Op: logical.UpdateOperation, Path: "sys/auth/token/tune", Token: v.Root, Data: map[string]any{"default_lease_ttl": "1h", "max_lease_ttl": "24h"}})
@@ -213,18 +226,92 @@ func c07AuthView(a *logical.Auth) *c07View {
 // ---------------------------------------------------------------- parents
 
 type c07ParentSpec struct {
-	Kind     string   `json:"kind"` // root0 | rootchild | rootexp | svc | batch | uses | login | login-ent
-	NS       string   `json:"ns"`
-	Policies []string `json:"policies,omitempty"`
-	Default  bool     `json:"default"`
-	TTL      string   `json:"ttl,omitempty"`
-	NumUses  int      `json:"num_uses,omitempty"`
-	Alias    string   `json:"alias,omitempty"`
+	Kind     string        `json:"kind"` // root0 | rootchild | rootexp | svc | batch | uses | login | login-ent | ent
+	NS       string        `json:"ns"`
+	Policies []string      `json:"policies,omitempty"`
+	Default  bool          `json:"default"`
+	TTL      string        `json:"ttl,omitempty"`
+	NumUses  int           `json:"num_uses,omitempty"`
+	Alias    string        `json:"alias,omitempty"`
+	Ident    *c07IdentSpec `json:"identity,omitempty"` // kind ent
+}
+
+// c07IdentSpec: the entity a parent of kind "ent" is bound to. The entity is made for the case (fresh alias),
+// gets EntityPolicies, and - when GroupPolicies is not nil - is the member of a fresh group carrying GroupPolicies.
+type c07IdentSpec struct {
+	Via            string   `json:"via"` // login: alias returned by an auth-method login | role-alias: token role + entity_alias
+	EntityPolicies []string `json:"entity_policies"`
+	GroupPolicies  []string `json:"group_policies"`
+}
+
+// c07Ident is the identity made for one parent.
+type c07Ident struct {
+	ns, entityID, groupID string
+	hasGroup              bool
+}
+
+// makeEntityParent makes a token bound to a fresh entity that carries the identity policies of the spec.
+func (w *c07World) makeEntityParent(s c07ParentSpec) (string, *c07Ident, error) {
+	v := w.v
+	w.n++
+	alias := fmt.Sprintf("c07e-%d", w.n)
+	var resp *logical.Response
+	var err error
+	switch s.Ident.Via {
+	case "login":
+		resp, err = v.Do(vReq{Op: logical.UpdateOperation, Path: "auth/vr/login/p", NS: s.NS, Data: map[string]any{"policies": append([]string{}, s.Policies...), "ttl": "6h", "no_default_policy": !s.Default, "alias": alias}})
+	case "role-alias":
+		resp, err = v.Do(vReq{Op: logical.UpdateOperation, Path: "auth/token/create/" + c07ParentRole, Token: v.Root, NS: s.NS, Data: map[string]any{"policies": append([]string{}, s.Policies...), "ttl": "6h", "no_default_policy": !s.Default, "entity_alias": alias}})
+	default:
+		return "", nil, fmt.Errorf("unknown identity binding %q", s.Ident.Via)
+	}
+	if !vOK(resp, err) || resp == nil || resp.Auth == nil || resp.Auth.EntityID == "" {
+		return "", nil, fmt.Errorf("entity-bound parent (%s) not made: %s", s.Ident.Via, vErrStr(resp, err))
+	}
+	id := resp.Auth.ClientToken
+	ident := &c07Ident{ns: s.NS, entityID: resp.Auth.EntityID}
+	if r2, e2 := v.Do(vReq{Op: logical.UpdateOperation, Path: "identity/entity/id/" + ident.entityID, Token: v.Root, NS: s.NS, Data: map[string]any{"policies": append([]string{}, s.Ident.EntityPolicies...)}}); !vOK(r2, e2) {
+		w.dropIdent(ident)
+		return "", nil, fmt.Errorf("writing entity policies %v failed: %s", s.Ident.EntityPolicies, vErrStr(r2, e2))
+	}
+	if s.Ident.GroupPolicies != nil {
+		r3, e3 := v.Do(vReq{Op: logical.UpdateOperation, Path: "identity/group", Token: v.Root, NS: s.NS, Data: map[string]any{"name": "c07g-" + alias, "policies": append([]string{}, s.Ident.GroupPolicies...), "member_entity_ids": []string{ident.entityID}}})
+		if !vOK(r3, e3) || r3 == nil || r3.Data == nil || fmt.Sprint(r3.Data["id"]) == "" {
+			w.dropIdent(ident)
+			return "", nil, fmt.Errorf("writing group with policies %v failed: %s", s.Ident.GroupPolicies, vErrStr(r3, e3))
+		}
+		ident.groupID, ident.hasGroup = fmt.Sprint(r3.Data["id"]), true
+	}
+	return id, ident, nil
+}
+
+// stripIdent empties the policy lists of the entity and of its group (membership stays).
+func (w *c07World) stripIdent(i *c07Ident) error {
+	if r, e := w.v.Do(vReq{Op: logical.UpdateOperation, Path: "identity/entity/id/" + i.entityID, Token: w.v.Root, NS: i.ns, Data: map[string]any{"policies": []string{}}}); !vOK(r, e) {
+		return fmt.Errorf("emptying entity policies: %s", vErrStr(r, e))
+	}
+	if i.hasGroup {
+		if r, e := w.v.Do(vReq{Op: logical.UpdateOperation, Path: "identity/group/id/" + i.groupID, Token: w.v.Root, NS: i.ns, Data: map[string]any{"policies": []string{}}}); !vOK(r, e) {
+			return fmt.Errorf("emptying group policies: %s", vErrStr(r, e))
+		}
+	}
+	return nil
+}
+
+func (w *c07World) dropIdent(i *c07Ident) {
+	if i == nil {
+		return
+	}
+	if i.hasGroup {
+		_, _ = w.v.Do(vReq{Op: logical.DeleteOperation, Path: "identity/group/id/" + i.groupID, Token: w.v.Root, NS: i.ns})
+	}
+	_, _ = w.v.Do(vReq{Op: logical.DeleteOperation, Path: "identity/entity/id/" + i.entityID, Token: w.v.Root, NS: i.ns})
 }
 
 func (w *c07World) makeParent(s c07ParentSpec) (*c07Parent, error) {
 	v := w.v
 	var id string
+	var ident *c07Ident
 	switch s.Kind {
 	case "root0":
 		id = v.Root
@@ -238,6 +325,11 @@ func (w *c07World) makeParent(s c07ParentSpec) (*c07Parent, error) {
 			return nil, fmt.Errorf("parent login failed: %s", vErrStr(resp, err))
 		}
 		id = resp.Auth.ClientToken
+	case "ent":
+		var err error
+		if id, ident, err = w.makeEntityParent(s); err != nil {
+			return nil, err
+		}
 	default:
 		data := map[string]any{"no_default_policy": !s.Default}
 		switch s.Kind {
@@ -265,11 +357,26 @@ func (w *c07World) makeParent(s c07ParentSpec) (*c07Parent, error) {
 	}
 	lv, d := w.lookup("parent", id, s.NS, false)
 	if lv == nil {
+		w.dropIdent(ident)
 		return nil, fmt.Errorf("parent lookup failed")
 	}
 	p := &c07Parent{Kind: s.Kind, NS: s.NS, ID: id, TokenPolicies: c07Norm(lv.TokenPolicies), IdentityPolicies: c07Norm(c07Strs(d["identity_policies"])),
 		NumUses: lv.NumUses, Batch: lv.Type == "batch", EntityID: lv.EntityID, NonExpiring: lv.NonExpiring}
 	p.Root = c07Has(p.TokenPolicies, "root")
+	if ident != nil {
+		// the reference takes the identity-derived policies from what the harness wrote, not from the server's report;
+		// a parent whose lookup disagrees with that is not used (counted as a failed setup)
+		p.ident = ident
+		p.EntityVia = s.Ident.Via
+		p.EntityPolicies, p.GroupPolicies = c07Norm(s.Ident.EntityPolicies), c07Norm(s.Ident.GroupPolicies)
+		want := c07Norm(append(append([]string{}, s.Ident.EntityPolicies...), s.Ident.GroupPolicies...))
+		if strings.Join(want, ",") != strings.Join(p.IdentityPolicies, ",") || p.EntityID == "" {
+			w.dropIdent(ident)
+			_, _ = v.Do(vReq{Op: logical.UpdateOperation, Path: "auth/token/revoke", Token: v.Root, NS: s.NS, Data: map[string]any{"token": id}})
+			return nil, fmt.Errorf("entity-bound parent: lookup reports entity %q identity_policies %v, the harness wrote entity %v group %v", p.EntityID, p.IdentityPolicies, s.Ident.EntityPolicies, s.Ident.GroupPolicies)
+		}
+		p.IdentityPolicies = want
+	}
 	return p, nil
 }
 
@@ -358,7 +465,22 @@ func (w *c07World) run(r *kit.Result, id string, ps c07ParentSpec, q c07Req, ren
 		if ps.Kind != "root0" && !parent.Batch {
 			_, _ = v.Do(vReq{Op: logical.UpdateOperation, Path: "auth/token/revoke", Token: v.Root, NS: ps.NS, Data: map[string]any{"token": parent.ID}})
 		}
+		w.dropIdent(parent.ident)
 	}()
+	idOnly := parent.identityOnly()
+	if parent.ident != nil {
+		r.Count("parents_with_entity", 1)
+		r.Count("parents_with_entity:via-"+parent.EntityVia, 1)
+		if parent.NS != "" {
+			r.Count("parents_with_entity_in_child_namespace", 1)
+		}
+		if len(parent.GroupPolicies) > 0 {
+			r.Count("parents_with_group_policies", 1)
+		}
+		if len(idOnly) > 0 {
+			r.Count("parents_with_identity_only_policies", 1)
+		}
+	}
 	if q.Role != nil && q.Role.Name != "missing" {
 		if err := w.writeRole(q.Role, q.NS); err != nil {
 			r.Count("role_write_refused", 1)
@@ -372,6 +494,22 @@ func (w *c07World) run(r *kit.Result, id string, ps c07ParentSpec, q c07Req, ren
 	c.Update, c.Sudo = c07RefCaps(parent.NS, parent.allPolicies(), q.NS+q.path())
 	if parent.NS != "" && q.NS == "" {
 		c.Update, c.Sudo = false, false // a namespace token has no standing in the parent namespace
+	}
+	if c.Sudo && !parent.Root && parent.ident != nil {
+		// identity-derived sudo is sudo: the caller's capabilities come from token and identity policies
+		if _, own := c07RefCaps(parent.NS, parent.TokenPolicies, q.NS+q.path()); !own {
+			c.SudoViaIdentity = true
+			r.Count("identity_derived_sudo_callers", 1)
+		}
+	}
+	reqIdOnly := false
+	for _, x := range c07Norm(q.Policies) {
+		if c07Has(idOnly, x) {
+			reqIdOnly = true
+		}
+	}
+	if reqIdOnly {
+		r.Count("requests_naming_identity_only_policy", 1)
 	}
 	// guard against an error in the reference ACL: compare with sys/capabilities (diagnostic only)
 	if !parent.Batch && parent.NumUses == 0 {
@@ -411,7 +549,8 @@ func (w *c07World) run(r *kit.Result, id string, ps c07ParentSpec, q c07Req, ren
 	if q.Role != nil {
 		shape = fmt.Sprintf("role[a%v,d%v,o%v,p%v,t%s]", q.Role.hasAllowLists(), q.Role.hasDenyLists(), q.Role.Orphan, q.Role.Period != "", q.Role.Type)
 	}
-	key := fmt.Sprintf("%s|%s|%s|x%v|asks%v|pol%v|np%v|nd%v|per%v|id%v|ty%s|created%v", capName, q.Endpoint, shape, c.CrossNS, asks, q.Policies != nil, q.NoParent, q.NoDefault, q.Period != "", q.ID != "", q.Type, created)
+	key := fmt.Sprintf("%s|%s|%s|x%v|asks%v|pol%v|np%v|nd%v|per%v|id%v|ty%s|created%v|ent%s,g%v,idsudo%v,reqid%v,alias%v", capName, q.Endpoint, shape, c.CrossNS, asks, q.Policies != nil, q.NoParent, q.NoDefault, q.Period != "", q.ID != "", q.Type, created,
+		parent.EntityVia, len(parent.GroupPolicies) > 0, c.SudoViaIdentity, reqIdOnly, q.EntityAlias != "")
 	r.Nontrivial(key)
 
 	if !created {
@@ -424,6 +563,13 @@ func (w *c07World) run(r *kit.Result, id string, ps c07ParentSpec, q c07Req, ren
 		}
 		for _, a := range asks {
 			r.Count("refused_unentitled_ask:"+a, 1)
+		}
+		if reqIdOnly {
+			r.Count("identity_only_policy_request_refused", 1)
+			if len(asks) == 1 && asks[0] == "identity-only-policy" && c.Update {
+				// nothing else in the request is objectionable: the refusal is the token-policies-only subset rule at work
+				r.Count("identity_only_policy_request_refused_for_that_alone", 1)
+			}
 		}
 		if len(asks) == 0 && c.Update {
 			r.Count("refused_without_unentitled_ask", 1)
@@ -448,6 +594,15 @@ func (w *c07World) run(r *kit.Result, id string, ps c07ParentSpec, q c07Req, ren
 		r.Count("created_despite_unentitled_ask:"+a, 1)
 	}
 	a := resp.Auth
+	if q.Role != nil && q.EntityAlias != "" {
+		// which entity does the requested alias name on the token mount of the request namespace?
+		if lr, le := v.Do(vReq{Op: logical.UpdateOperation, Path: "identity/lookup/entity", Token: v.Root, NS: q.NS, Data: map[string]any{"alias_name": q.EntityAlias, "alias_mount_accessor": w.tokenAcc[q.NS]}}); vOK(lr, le) && lr != nil && lr.Data != nil {
+			c.AliasEntity, _ = lr.Data["id"].(string)
+		}
+		if c.AliasEntity != "" {
+			r.Count("requested_alias_resolved_to_entity", 1)
+		}
+	}
 	views := []*c07View{c07AuthView(a)}
 	periodic := a.Period > 0
 	defer func() {
@@ -496,14 +651,56 @@ func (w *c07World) run(r *kit.Result, id string, ps c07ParentSpec, q c07Req, ren
 		}
 	}
 
+	if parent.ident != nil {
+		// take every policy away from the parent's entity and group: whatever the child still shows in its
+		// stored entry is its own (no waiting involved: lookup reads the entry and the identity store)
+		if err := w.stripIdent(parent.ident); err != nil {
+			r.Count("harness_identity_strip_failed", 1)
+			r.Note("case %s: %v", id, err)
+		} else if sv, _ := w.lookup(c07StripView, a.ClientToken, q.NS, periodic); sv != nil {
+			views = append(views, sv)
+			r.Count("views_after_identity_policies_removed", 1)
+			if pl, pd := w.lookup("parent-after-strip", parent.ID, parent.NS, false); pl != nil && len(c07Strs(pd["identity_policies"])) == 0 {
+				r.Count("parent_lost_identity_policies_after_removal", 1)
+			}
+		}
+	}
+
 	// evidence: which entitlements were actually exercised
 	pv := views[0]
 	pols := c07Norm(pv.TokenPolicies)
 	beyond := false
 	for _, x := range pols {
-		if x != "default" && !c07Has(parent.allPolicies(), x) {
+		if x != "default" && !c07Has(parent.TokenPolicies, x) {
 			beyond = true
 		}
+	}
+	carriesIdOnly := false
+	for _, x := range pols {
+		if c07Has(idOnly, x) {
+			carriesIdOnly = true
+		}
+	}
+	if c.SudoViaIdentity {
+		r.Count("created_by_identity_derived_sudo_caller", 1)
+	}
+	if carriesIdOnly {
+		switch {
+		case c.SudoViaIdentity:
+			r.Count("identity_only_policy_granted_via_identity_derived_sudo", 1)
+		case c.Sudo:
+			r.Count("identity_only_policy_granted_via_sudo", 1)
+		case q.Role != nil && q.Role.hasAllowLists():
+			r.Count("identity_only_policy_granted_via_role_allow_lists", 1)
+		default:
+			r.Count("identity_only_policy_granted_without_entitlement", 1)
+		}
+	}
+	if len(idOnly) > 0 && len(c07Norm(q.Policies)) == 0 && !carriesIdOnly && !(q.Role != nil && q.Role.hasAllowLists()) {
+		r.Count("inherit_from_entity_parent_gave_token_policies_only", 1)
+	}
+	if len(idOnly) > 0 && !c.Sudo && !carriesIdOnly && len(c07Norm(q.Policies)) > 0 {
+		r.Count("entity_parent_without_sudo_narrowed_to_token_policies", 1)
 	}
 	switch {
 	case beyond && c.Sudo:
@@ -561,6 +758,12 @@ func (w *c07World) run(r *kit.Result, id string, ps c07ParentSpec, q c07Req, ren
 	}
 	if pv.EntityID != "" && parent.EntityID == "" {
 		r.Count("entity_via_role_alias", 1)
+	}
+	if pv.EntityID != "" && parent.EntityID != "" && c.AliasEntity != "" && (pv.EntityID == c.AliasEntity || strings.HasPrefix(pv.EntityID, c.AliasEntity+".")) {
+		r.Count("entity_via_role_alias_instead_of_parent_entity", 1)
+	}
+	if pv.EntityID == "" && parent.EntityID != "" && pv.Orphan {
+		r.Count("orphan_of_entity_parent_without_entity", 1)
 	}
 	if pv.EntityID != "" && (pv.EntityID == parent.EntityID || strings.HasPrefix(pv.EntityID, parent.EntityID+".")) {
 		r.Count("entity_inherited_from_parent", 1)
@@ -659,7 +862,32 @@ func c07RandRole(rng *kit.Rand, name string) *c07Role {
 }
 
 // c07RandPolicies draws the requested policy list relative to the parent and the role.
-func c07RandPolicies(rng *kit.Rand, parentPols []string, ro *c07Role) []string {
+func c07RandPolicies(rng *kit.Rand, parentPols []string, ro *c07Role, ident []string) []string {
+	if len(ident) > 0 && rng.Chance(1, 2) {
+		// the parent derives `ident` from its entity / group: name those
+		tok := c07Sub(rng, parentPols, 1, 2)
+		var out []string
+		switch rng.Intn(7) {
+		case 0:
+			out = []string{kit.Pick(rng, ident)}
+		case 1:
+			out = append(tok, kit.Pick(rng, ident))
+		case 2:
+			out = append([]string{}, ident...)
+		case 3:
+			out = append(append([]string{}, parentPols...), ident...)
+		case 4:
+			out = []string{c07Mangle(rng, kit.Pick(rng, ident))}
+		case 5:
+			out = append([]string{kit.Pick(rng, ident)}, tok...)
+			if rng.Chance(1, 2) {
+				out = append(out, "default")
+			}
+		default:
+			return nil
+		}
+		return out
+	}
 	sub := func() []string {
 		s := c07Sub(rng, parentPols, 1, 2)
 		if len(s) == 0 && len(parentPols) > 0 {
@@ -771,15 +999,56 @@ func c07RandCase(rng *kit.Rand, w *c07World, n int) (c07ParentSpec, c07Req) {
 	case k < 11:
 		ps.Kind = "uses"
 		ps.NumUses = 1 + rng.Intn(4)
-	case k < 14:
+	case k < 13:
 		ps.Kind = "login"
-	case k < 17:
+	case k < 15:
 		if ps.NS == "" {
 			ps.Kind = "login-ent"
 			ps.Alias = kit.Pick(rng, []string{"ent-plain", "ent-sudo", "ent-b"})
 		} else {
 			ps.Kind = "login"
 		}
+	case k < 25:
+		// bound to an entity made for the case; the entity and (mostly) a group it belongs to carry policies:
+		// content policies the token lacks, some the token has too, and now and then sudo on a create path
+		ps.Kind = "ent"
+		id := &c07IdentSpec{Via: kit.Pick(rng, []string{"login", "role-alias"})}
+		sudoPol := func() string {
+			sp := kit.Pick(rng, []string{"sudo-create", "sudo-create", "sudo-orphan", "sudo-roles", "sudo-glob"})
+			if nsMode >= 8 {
+				sp = "x-" + sp
+			}
+			return sp
+		}
+		var lacking []string
+		for _, x := range c07Content {
+			if !c07Has(content, x) {
+				lacking = append(lacking, x)
+			}
+		}
+		id.EntityPolicies = c07Sub(rng, lacking, 1, 3)
+		if rng.Chance(1, 3) && len(content) > 0 {
+			id.EntityPolicies = append(id.EntityPolicies, kit.Pick(rng, content))
+		}
+		if rng.Chance(1, 4) {
+			id.EntityPolicies = append(id.EntityPolicies, sudoPol())
+		}
+		if rng.Chance(2, 3) {
+			id.GroupPolicies = c07Sub(rng, lacking, 1, 3)
+			if rng.Chance(1, 3) && len(content) > 0 {
+				id.GroupPolicies = append(id.GroupPolicies, kit.Pick(rng, content))
+			}
+			if rng.Chance(1, 4) {
+				id.GroupPolicies = append(id.GroupPolicies, sudoPol())
+			}
+			if id.GroupPolicies == nil {
+				id.GroupPolicies = []string{}
+			}
+		}
+		if len(id.EntityPolicies)+len(id.GroupPolicies) == 0 && len(lacking) > 0 {
+			id.EntityPolicies = []string{kit.Pick(rng, lacking)}
+		}
+		ps.Ident = id
 	default:
 		ps.Kind = "svc"
 		ps.TTL = kit.Pick(rng, []string{"", "20m", "12h"})
@@ -801,7 +1070,15 @@ func c07RandCase(rng *kit.Rand, w *c07World, n int) (c07ParentSpec, c07Req) {
 			q.Role = &c07Role{Name: "missing"}
 		}
 	}
-	q.Policies = c07RandPolicies(rng, ps.Policies, q.Role)
+	var ident []string
+	if ps.Ident != nil && ps.Kind == "ent" {
+		for _, x := range c07Norm(append(append([]string{}, ps.Ident.EntityPolicies...), ps.Ident.GroupPolicies...)) {
+			if !c07Has(ps.Policies, x) {
+				ident = append(ident, x)
+			}
+		}
+	}
+	q.Policies = c07RandPolicies(rng, ps.Policies, q.Role, ident)
 	q.NoParent = rng.Chance(1, 8)
 	q.NoDefault = rng.Chance(1, 4)
 	if rng.Chance(1, 6) {
@@ -846,7 +1123,7 @@ func c07Shard(prefix string) int {
 	return shard
 }
 
-const c07Rule0 = "a case = one parent token made for the case (kind root/expiring root/service/batch/use-limited/login/login with entity; namespace; access policy set with or without sudo on the called path; content policies; default or not) x one request to auth/token/create | create-orphan | create/<role> (role written for the case) in the same or the child namespace; every returned token is judged on the response auth block, on lookup of the stored token, on lookup under a caller-chosen id and after a renewal attempt against the doc-derived invariants (policy bound incl. role lists/globs/sudo/cross-namespace, root, non-assignable, default rule, orphan, period, id, type, role CIDRs/uses, lifetime vs explicit and mount max, entity, namespace); distinct non-trivial = distinct (capability, endpoint, role shape, cross-namespace, set of unentitled asks, flags, outcome)"
+const c07Rule0 = "a case = one parent token made for the case (kind root/expiring root/service/batch/use-limited/login/login with entity/bound to an entity made for the case - through a login alias or a token role with entity_alias - whose entity and group carry policies the token has, policies it lacks and now and then sudo on a create path; namespace; access policy set with or without sudo on the called path; content policies; default or not) x one request to auth/token/create | create-orphan | create/<role> (role written for the case) in the same or the child namespace; every returned token is judged on the response auth block, on lookup of the stored token, on lookup under a caller-chosen id and after a renewal attempt against the doc-derived invariants (policy bound against the parent TOKEN's own policies incl. role lists/globs/sudo (token- or identity-derived)/cross-namespace; for entity-bound parents also on a lookup after every policy was taken off the entity and its group; root, non-assignable, default rule, orphan, period, id, type, role CIDRs/uses, lifetime vs explicit and mount max, entity, namespace); distinct non-trivial = distinct (capability, endpoint, role shape, cross-namespace, set of unentitled asks, flags, outcome)"
 
 func c07Requires(r *kit.Result, scale int64) {
 	r.Require("cross_namespace_caller_whose_policy_namesakes_grant_sudo", 10*scale)
@@ -858,6 +1135,27 @@ func c07Requires(r *kit.Result, scale int64) {
 	}
 	for _, k := range []string{"policy_beyond_parent_via_sudo", "policy_beyond_parent_via_role_allow_lists", "explicit_subset_of_parent_granted", "orphan_via_endpoint", "orphan_via_role", "orphan_via_sudo_no_parent", "non_orphan_created", "periodic_via_role", "periodic_via_sudo", "root_child_of_root_parent", "token_reachable_under_chosen_id", "cross_namespace_created", "created_in_child_namespace", "created:none:create", "created:none:create-orphan", "created:none:role", "created:sudo:create", "created:sudo:role", "created:root:create"} {
 		r.Require(k, 2*scale)
+	}
+	// the identity dimension of the parents: without these "held" says nothing about entity-bound callers
+	for k, min := range map[string]int64{
+		"parents_with_entity": 100, "parents_with_entity:via-login": 40, "parents_with_entity:via-role-alias": 40,
+		"parents_with_entity_in_child_namespace": 30, "parents_with_group_policies": 40, "parents_with_identity_only_policies": 80,
+		"requests_naming_identity_only_policy":                   60,
+		"refused_unentitled_ask:identity-only-policy":            20,
+		"identity_only_policy_request_refused_for_that_alone":    10,
+		"identity_derived_sudo_callers":                          8,
+		"created_by_identity_derived_sudo_caller":                4,
+		"identity_only_policy_granted_via_identity_derived_sudo": 2,
+		"identity_only_policy_granted_via_sudo":                  10,
+		"identity_only_policy_granted_via_role_allow_lists":      1,
+		"inherit_from_entity_parent_gave_token_policies_only":    10,
+		"entity_parent_without_sudo_narrowed_to_token_policies":  5,
+		"views_after_identity_policies_removed":                  50,
+		"parent_lost_identity_policies_after_removal":            50,
+		"entity_inherited_from_parent":                           30,
+		"orphan_of_entity_parent_without_entity":                 15,
+	} {
+		r.Require(k, min*scale)
 	}
 }
 
@@ -891,7 +1189,7 @@ func TestVerif_C07_Random(t *testing.T) {
 func TestVerif_C07_Lattice(t *testing.T) {
 	seed := kit.Seed(7)
 	shard := c07Shard("lat")
-	r := kit.NewResult(t, "c07-lattice", seed, "full product capability{none, sudo on the called path, sudo only elsewhere, (cross-namespace) sudo only through a same-named policy of the other namespace, root} x namespaces{root, ns1, root->ns1} x endpoint{create, create-orphan, role without lists, role allowed, role allowed+glob, role disallowed, role disallowed glob, role allowed+disallowed, role allowing root, role with token_no_default_policy} x requested policies{none, subset, superset, all of the parent plus one, default, root, root in upper case, response-wrapping (two spellings), glob-matched, role-disallowed} x no_default_policy x parent has default; capability x namespaces x endpoint{create, create-orphan, plain role, orphan role, period role, explicit-max role, default-batch role with explicit max} (with a renewal attempt) x flag{no_parent, period, id, batch type, explicit max, huge ttl, combinations}; batch and use-limited parents x capability x namespaces x endpoints; "+c07Rule0)
+	r := kit.NewResult(t, "c07-lattice", seed, "full product capability{none, sudo on the called path, sudo only elsewhere, (cross-namespace) sudo only through a same-named policy of the other namespace, root} x namespaces{root, ns1, root->ns1} x endpoint{create, create-orphan, role without lists, role allowed, role allowed+glob, role disallowed, role disallowed glob, role allowed+disallowed, role allowing root, role with token_no_default_policy} x requested policies{none, subset, superset, all of the parent plus one, default, root, root in upper case, response-wrapping (two spellings), glob-matched, role-disallowed} x no_default_policy x parent has default; capability x namespaces x endpoint{create, create-orphan, plain role, orphan role, period role, explicit-max role, default-batch role with explicit max} (with a renewal attempt) x flag{no_parent, period, id, batch type, explicit max, huge ttl, combinations}; entity-bound parents {root, ns1} x binding{login alias, role entity_alias} x capability{none, sudo by token policy, sudo only by entity policy, sudo only by group policy} x endpoint{create, create-orphan, role without lists, role allowed, role allowed+glob, role disallowed, role with allowed_entity_aliases + entity_alias, orphan role} x requested{none, token subset, entity-only policy, group-only policy, mixtures, upper case, all identity-only, all of the parent plus identity-only} x no_default_policy, plus root->ns1 and allow-list+alias roles; batch and use-limited parents x capability x namespaces x endpoints; "+c07Rule0)
 	defer r.Write(t)
 	w := c07Boot(t)
 	rng := kit.NewRand(seed, uint64(shard)+900)
@@ -1058,6 +1356,90 @@ func TestVerif_C07_Lattice(t *testing.T) {
 		}
 	}
 	renew = false
+	// parents bound to an entity. Token policies: access + a, b, dev-app (+default). The entity carries c (identity
+	// only) and a (also on the token); its group carries ops-x (identity only) and b (also on the token). Capability:
+	// none | sudo on the called path through a TOKEN policy | through an ENTITY policy only | through a GROUP policy only.
+	roles["role-alias"] = func(n string) *c07Role { return &c07Role{Name: n, Renewable: true, Aliases: []string{"web-*"}} }
+	roles["role-allowed-alias"] = func(n string) *c07Role {
+		return &c07Role{Name: n, Renewable: true, Allowed: []string{"a", "c", "ops-x"}, Aliases: []string{"web-*"}}
+	}
+	identRequested := map[string][]string{
+		"none": nil, "token-subset": {"a"}, "ident-entity": {"c"}, "ident-group": {"ops-x"}, "mix-entity": {"a", "c"}, "mix-group": {"dev-app", "ops-x"},
+		"ident-upper": {" C "}, "all-ident": {"c", "ops-x"}, "parent-plus-ident": {"@parent", "c"},
+	}
+	identReqKeys := []string{"none", "token-subset", "ident-entity", "ident-group", "mix-entity", "mix-group", "ident-upper", "all-ident", "parent-plus-ident"}
+	doIdent := func(capability, via, ep string, m nsm, hasDefault bool, fill func(q *c07Req)) {
+		n++
+		id := fmt.Sprintf("lat:%d:%d", shard, n)
+		if !kit.WantCase(id) {
+			return
+		}
+		rng = kit.NewRand(seed, uint64(shard)*1_000_000+uint64(n)+900_000_000)
+		q := c07Req{NS: m.qns, Endpoint: ep}
+		base := ep
+		if strings.HasPrefix(ep, "role-") {
+			q.Endpoint, base = "role", "role"
+			q.Role = roles[ep](fmt.Sprintf("l%d", n))
+		}
+		cross := m.pns != m.qns
+		target := map[string]string{"create": "sudo-create", "create-orphan": "sudo-orphan", "role": "sudo-roles"}[base]
+		tc := "tc"
+		if cross {
+			target, tc = "x-"+target, "x-tc"
+		}
+		ps := c07ParentSpec{Kind: "ent", NS: m.pns, Default: hasDefault, Policies: []string{tc, "a", "b", "dev-app"},
+			Ident: &c07IdentSpec{Via: via, EntityPolicies: []string{"c", "a"}, GroupPolicies: []string{"ops-x", "b"}}}
+		switch capability {
+		case "sudo":
+			ps.Policies = append(ps.Policies, target)
+		case "idsudo-entity":
+			ps.Ident.EntityPolicies = append(ps.Ident.EntityPolicies, target)
+		case "idsudo-group":
+			ps.Ident.GroupPolicies = append(ps.Ident.GroupPolicies, target)
+		}
+		fill(&q)
+		if len(q.Policies) > 0 && q.Policies[0] == "@parent" {
+			q.Policies = append(append([]string{}, ps.Policies...), q.Policies[1:]...)
+		}
+		w.run(r, id, ps, q, false)
+	}
+	for _, m := range modes[:2] {
+		for _, via := range []string{"login", "role-alias"} {
+			for _, capability := range []string{"none", "sudo", "idsudo-entity", "idsudo-group"} {
+				for _, ep := range []string{"create", "create-orphan", "role-nolists", "role-allowed", "role-allowglob", "role-disallowed", "role-alias", "role-orphan"} {
+					for _, rk := range identReqKeys {
+						for _, nd := range []bool{false, true} {
+							if nd && !(rk == "none" || rk == "ident-entity" || rk == "mix-group") {
+								continue
+							}
+							doIdent(capability, via, ep, m, !nd || rk != "none", func(q *c07Req) {
+								q.Policies = identRequested[rk]
+								q.NoDefault = nd
+								if ep == "role-alias" {
+									q.EntityAlias = "web-1"
+								}
+							})
+						}
+					}
+				}
+			}
+		}
+	}
+	// entity-bound parent of the root namespace calling into the child namespace; role with allow lists + alias
+	for _, capability := range []string{"none", "idsudo-entity", "idsudo-group"} {
+		for _, ep := range []string{"create", "role-nolists"} {
+			for _, rk := range []string{"none", "token-subset", "ident-entity"} {
+				doIdent(capability, "login", ep, modes[2], true, func(q *c07Req) { q.Policies = identRequested[rk] })
+			}
+		}
+	}
+	for _, m := range modes[:2] {
+		for _, capability := range []string{"none", "idsudo-group"} {
+			for _, rk := range []string{"none", "ident-entity", "mix-group"} {
+				doIdent(capability, "login", "role-allowed-alias", m, true, func(q *c07Req) { q.Policies, q.EntityAlias = identRequested[rk], "WEB-2" })
+			}
+		}
+	}
 	// batch and use-limited parents: nothing at all may be created, whatever the capability
 	for _, special = range []string{"batch", "uses"} {
 		for _, capability := range []string{"none", "sudo"} {
@@ -1073,6 +1455,13 @@ func TestVerif_C07_Lattice(t *testing.T) {
 	special = ""
 	r.Count("lattice_points", n)
 	c07Requires(r, 1)
+	for k, min := range map[string]int64{
+		"identity_derived_sudo_callers": 300, "created_by_identity_derived_sudo_caller": 200, "identity_only_policy_granted_via_identity_derived_sudo": 100,
+		"identity_only_policy_granted_via_role_allow_lists": 20, "identity_only_policy_request_refused_for_that_alone": 60,
+		"entity_via_role_alias_instead_of_parent_entity": 40, "views_after_identity_policies_removed": 500,
+	} {
+		r.Require(k, min)
+	}
 }
 
 // ---------------------------------------------------------------- logins
